@@ -188,6 +188,16 @@ expression it replaced (which evaluated to `inf/inf` for wide domains) -/
 theorem folded_bias_same_function (b l u v : ℝ) (hb : b ≠ 0) : foldBiasOf b l u v = foldBiasOld b l u v :=
   foldBias_eq_old b l u v hb
 
+/-! ## zero noise scale (sensitivity 0) -/
+
+/-- with a zero scale the mechanisms add no noise: the output is the truncated / folded / clamped value itself, so the
+bias is that point minus the value and the variance 0 — which is what the guards added in commit dab9e69 return -/
+theorem zero_scale_moments (l u v folded : ℝ) :
+    truncBiasOf 0 l u v = truncateV l u v - v ∧ truncVarianceOf 0 l u v = 0 ∧
+    foldBiasAt 0 l u v folded = folded - v ∧
+    bdBiasOf 0 l u v = pyMax2 (pyMin2 v u) l - v ∧ bdVarianceOf 0 l u v = 0 := by
+  simp [truncBiasOf, truncVarianceOf, foldBiasAt, bdBiasOf, bdVarianceOf, feq_real]
+
 /-! ## truncated and bounded-domain Laplace (partial) -/
 
 /-- the full statements (not proved): for EVERY value and EVERY (possibly infinite) bounds the reported numbers are
